@@ -46,7 +46,9 @@ LEVEL_NOTE = (
     "and gathered); a third family uses whole-tensor signs x structural "
     "zeros (one entry zeroed, diagonal-only tensors) and mixed signs, so "
     "that intermediates are non-positive and contain exact zeros without "
-    "being identically zero; cases whose exact result is identically zero "
+    "being identically zero; a fourth family grades the data ALONG a "
+    "sliced inner index (slabs scaled by 1e-100 / 1e+100) so that the "
+    "slices differ by hundreds of decades; cases whose exact result is identically zero "
     "are outside the property and skipped"
 )
 RULE = (
@@ -347,6 +349,59 @@ def work(unit):
                                  "sizes": sd, "tree": nested,
                                  "sliced": order, "zeroed": True,
                                  "seed": seed}, bad[:3])
+    # ---- data graded ALONG a sliced inner index: the slabs ix=0 / ix=1 of
+    # every tensor carrying ix are scaled by 1e-100 / 1e+100 (entries stay
+    # within 1e-100..1e101), so the slices differ by hundreds of decades
+    if n >= 2:
+        for ix in inds:
+            if ix in output or sd[ix] < 2:
+                continue
+            carriers = [k for k, t in enumerate(inputs) if ix in t]
+            if len(carriers) < 2:
+                continue
+            for g in ((-100, 100, 0), (100, -100, 0), (-100, 0, 100)):
+                g = g[:sd[ix]]
+                arrays = []
+                for k, (t, b) in enumerate(zip(inputs, base)):
+                    a = b.astype("float64")
+                    if ix in t:
+                        ax = t.index(ix)
+                        shp = [1] * a.ndim
+                        shp[ax] = len(g)
+                        a = a * (10.0 ** np.array(g, dtype="float64")
+                                 ).reshape(shp)
+                    arrays.append(a)
+                smin = min(g) * len(carriers)
+                want = None
+                for v, gv in enumerate(g):
+                    w = np.asarray(exact_reference(inputs, output, sd, base,
+                                                   fixed={ix: v}),
+                                   dtype=object)
+                    w = w * (10 ** (gv * len(carriers) - smin))
+                    want = w if want is None else want + w
+                if not np.any(want != 0):
+                    continue
+                for nested in U.all_trees(range(n)):
+                    tree = nets.build_tree(inputs, output, sd, nested)
+                    tree.remove_ind_(ix)
+                    bad = []
+                    for cz in (False, True):
+                        res.evals += 1
+                        try:
+                            m, e = tree.contract(arrays, strip_exponent=True,
+                                                 check_zero=cz)
+                            check_pair(m, e, want, smin,
+                                       f"graded-slices[check_zero={cz}]", bad)
+                        except Exception as ex:
+                            bad.append((f"graded-slices[check_zero={cz}]:"
+                                        "raises", repr(ex)))
+                    res.key((inputs, output, nested, "graded", ix, g))
+                    if bad:
+                        res.violation(
+                            "strip-exponent:graded-slices",
+                            {"inputs": inputs, "output": output, "sizes": sd,
+                             "tree": nested, "sliced": (ix,), "graded": g,
+                             "zeroed": True, "seed": seed}, bad[:3])
     # ---- signed and sparse data: whole-tensor signs x structural zeros, so
     # that intermediates are non-positive and/or contain exact zeros without
     # being identically zero (results that are identically zero are outside
